@@ -12,7 +12,10 @@
                render + format), nul, err; long = 1 -> bytes not shipped, derived flags der/tailb.
    C08 record: cut, fail, exp/expr (interned dumps of Parse(input[0..cut)) and its reference map),
                expb (interned block-level dumps), evs = [1,req,n,flag] read | [2,dump] block | [3,err],
-               fin/finr (streamed blocks after Extract+Rewrite, reference map), after (reads after latch).
+               fin/finr (streamed blocks after Extract+Rewrite, reference map), after (reads after latch);
+               lim = 1: a schedule of Stream.tla with a small MaxBuf replayed with the same limits (hook SetVerifLimits); the
+               model expects the line starting at upto to be dropped: exp/expb are those of input[0..upto), the error
+               must be "line eline: block too large" ([3, 4, line]).
 *)
 EXTENDS Bytes, TLC, Json
 
@@ -58,12 +61,13 @@ C08Check(t) ==
       eidx == {i \in 1..Len(evs) : evs[i][1] = 3}
       ridx == {i \in 1..Len(evs) : evs[i][1] = 1}
       blocks == SelectSeq(evs, LAMBDA e : e[1] = 2)
-      wantErr == IF t.fail = 1 THEN 2 ELSE 1
+      wantErr == IF t.lim = 1 THEN 4 ELSE IF t.fail = 1 THEN 2 ELSE 1    \* 4 = "line N: block too large" (Stream.tla, size limit)
       latch == {i \in ridx : evs[i][4] # 0}
   IN
   IF \E i \in bidx, j \in eidx : j < i THEN "block-after-error"
   ELSE IF [k \in 1..Len(blocks) |-> blocks[k][2]] # t.expb THEN "blocks-not-those-of-the-prefix"
   ELSE IF \E i \in eidx : evs[i][2] # wantErr THEN "wrong-error-value"
+  ELSE IF t.lim = 1 /\ (\E i \in eidx : evs[i][3] # t.eline) THEN "too-large-names-the-wrong-line"
   ELSE IF Cardinality(eidx) # 4 THEN "error-not-persistent"
   ELSE IF t.fin # t.exp THEN "trees-differ-from-in-memory-parse"
   ELSE IF t.finr # t.expr THEN "reference-map-differs"
